@@ -42,13 +42,16 @@ func influenceSetOpt(fn *ssa.Function, sinks []ssa.Value, lenSeparately bool) ma
 		}
 	}
 	// localRoot: the Alloc an address is derived from (through FieldAddr/IndexAddr/Slice), or nil
-	var localRoot func(v ssa.Value, d int) *ssa.Alloc
-	localRoot = func(v ssa.Value, d int) *ssa.Alloc {
+	var localRoot func(v ssa.Value, d int) ssa.Value
+	localRoot = func(v ssa.Value, d int) ssa.Value {
 		if d > 12 {
 			return nil
 		}
 		switch x := v.(type) {
 		case *ssa.Alloc:
+			return x
+		case *ssa.MakeSlice:
+			// a buffer made here: filled by copy / append / element stores
 			return x
 		case *ssa.FieldAddr:
 			return localRoot(x.X, d+1)
@@ -81,8 +84,8 @@ func influenceSetOpt(fn *ssa.Function, sinks []ssa.Value, lenSeparately bool) ma
 			}
 		}
 	}
-	allocDone := map[*ssa.Alloc]bool{}
-	processAlloc := func(a *ssa.Alloc) {
+	allocDone := map[ssa.Value]bool{}
+	processAlloc := func(a ssa.Value) {
 		if allocDone[a] {
 			return
 		}
